@@ -490,3 +490,38 @@ pub fn fallback_only_words(f: &mut dyn FnMut(G)) {
         }
     }
 }
+
+/// A handful of grammars that are long, deep or wide rather than intricate: a pass that gives up
+/// (or starts to differ) beyond some depth or count shows only on these.
+pub fn deep_shapes(f: &mut dyn FnMut(G)) {
+    let lit = E::lit;
+    // 300 words in a row, the last ones with a choice and a fallback
+    let mut items: Vec<E> = (0..300).map(|i| lit(&format!("w{i}"))).collect();
+    items.push(E::Alt(vec![lit("p"), E::litd("q", "dq")]));
+    items.push(E::Fb(vec![lit("r"), E::Word(vec![lit("s="), E::Alt(vec![lit("u"), lit("v")])])]));
+    f(call(E::Seq(items)));
+    // optional nesting 60 deep: [a0 [a1 [a2 ...]]]
+    let mut e = E::Opt(Box::new(lit("a60")));
+    for i in (0..60).rev() {
+        e = E::Opt(Box::new(E::Seq(vec![lit(&format!("a{i}")), e])));
+    }
+    f(call(e));
+    // 300 alternatives, 40 fallback levels
+    f(call(E::Seq(vec![E::Alt((0..300).map(|i| lit(&format!("l{i}"))).collect()), lit("t")])));
+    f(call(E::Seq(vec![E::Fb((0..40).map(|i| if i % 7 == 3 { E::cmd(&format!("c{i}")) } else { lit(&format!("f{i}")) }).collect()), lit("t")])));
+    // a chain of 40 definitions, the last one a word with a fallback
+    let mut stmts = vec![Stmt::Call { name: CMD.into(), expr: E::Seq(vec![E::r("K0"), lit("end")]) }];
+    for i in 0..40 {
+        stmts.push(def(&format!("K{i}"), E::Seq(vec![lit(&format!("k{i}")), E::r(&format!("K{}", i + 1))])));
+    }
+    stmts.push(def("K40", E::Word(vec![lit("--z="), E::Fb(vec![lit("m"), lit("n")])])));
+    f(G { stmts });
+    // one word of 30 factors
+    let mut fs = vec![lit("x")];
+    for i in 0..30 {
+        fs.push(E::Alt(vec![lit(&format!("a{i}")), lit(&format!("b{i}"))]));
+    }
+    f(call(E::Seq(vec![E::Word(fs), lit("t")])));
+    // 40 within-word expressions of two shapes
+    f(call(E::Many(Box::new(E::Alt((0..40).map(|i| if i % 2 == 0 { E::Word(vec![lit(&format!("--o{i}=")), E::Alt(vec![lit("y"), lit("n")])]) } else { E::Word(vec![lit(&format!("--o{i}=")), E::r("U")]) }).collect())))));
+}
